@@ -97,6 +97,40 @@ pub struct TlsCase {
     pub pending: u8,
     /// how many Rc / Weak each object owns
     pub owned: u8,
+    /// a large number of further Rcs owned by the first object that is initialised before the
+    /// handle (they are dropped inside its destructor, after the handle is gone)
+    #[serde(default)]
+    pub owned_many: u32,
+    /// stack size of the surviving thread that reclaims afterwards (0 = the main thread)
+    #[serde(default)]
+    pub survivor_stack_kib: u32,
+}
+
+/// A thread-local destructor that releases a large collection after the handle is gone (each
+/// release is a critical section of a temporary participant), then an ordinary thread collects.
+pub fn pile_up_strategy(t: crate::runner::Tier) -> BoxedStrategy<Value> {
+    let maxn = t.pick(400_000u32, 1_600_000u32);
+    (
+        0u8..20,
+        (10.0f64..(maxn as f64).log2()).prop_map(|e| e.exp2() as u32),
+        prop_oneof![Just(256u32), Just(512u32), Just(2048u32), Just(0u32)],
+        proptest::collection::vec((0usize..ACTS.len(), any::<u8>()).prop_map(|(i, a)| (ACTS[i], a)), 0..3),
+        any::<bool>(),
+    )
+        .prop_map(|(align, owned_many, survivor_stack_kib, acts, handle_at_all)| {
+            serde_json::to_value(TlsCase {
+                align,
+                init_order: if handle_at_all { vec![0, 3] } else { vec![0] },
+                dtor_actions: vec![acts, vec![], vec![]],
+                body: vec![],
+                pending: 0,
+                owned: 0,
+                owned_many,
+                survivor_stack_kib,
+            })
+            .unwrap()
+        })
+        .boxed()
 }
 
 pub fn strategy() -> BoxedStrategy<Value> {
@@ -117,6 +151,8 @@ pub fn strategy() -> BoxedStrategy<Value> {
                 body,
                 pending,
                 owned,
+                owned_many: 0,
+                survivor_stack_kib: 0,
             })
             .unwrap()
         })
@@ -296,6 +332,12 @@ pub fn exec(_prop: &str, v: &Value) -> Report {
                     } else {
                         late_fill.push(idx);
                     }
+                    if !handle_inited && c.owned_many > 0 && idx == c.init_order.iter().cloned().find(|w| *w != 3).unwrap_or(9) as usize {
+                        // (Rc::new needs no participant handle)
+                        for _ in 0..c.owned_many {
+                            o.rcs.push(mk());
+                        }
+                    }
                     install(idx, o);
                 }
             }
@@ -350,32 +392,49 @@ pub fn exec(_prop: &str, v: &Value) -> Report {
         }
     };
     // the surviving thread reclaims everything the exited thread produced
-    drop(sh.cell.swap(Rc::null(), SeqCst));
-    let created = CREATED.load(SeqCst);
-    let bound = 64 + 4 * created;
-    let mut rounds = 0;
-    while DROPPED.load(SeqCst) < created || FREED.load(SeqCst) < created {
-        if rounds > bound {
-            violation(
-                "C20",
-                "O-teardown",
-                "O-teardown/leak",
-                &format!("{} objects were created by the short-lived thread (and its destructors); after it exited and {} collection rounds by the surviving thread only {} were destructed and {} freed", created, rounds, DROPPED.load(SeqCst), FREED.load(SeqCst)),
-            );
+    let survive = move || {
+        drop(sh.cell.swap(Rc::null(), SeqCst));
+        let created = CREATED.load(SeqCst);
+        let bound = 64 + 4 * created;
+        let mut rounds = 0;
+        while DROPPED.load(SeqCst) < created || FREED.load(SeqCst) < created {
+            if rounds > bound {
+                violation(
+                    "C20",
+                    "O-teardown",
+                    "O-teardown/leak",
+                    &format!("{} objects were created by the short-lived thread (and its destructors); after it exited and {} collection rounds by the surviving thread only {} were destructed and {} freed", created, rounds, DROPPED.load(SeqCst), FREED.load(SeqCst)),
+                );
+            }
+            let g = cs();
+            g.flush();
+            drop(g);
+            rounds += 1;
         }
-        let g = cs();
-        g.flush();
-        drop(g);
-        rounds += 1;
-    }
+        rounds
+    };
+    let rounds = if case.survivor_stack_kib == 0 {
+        survive()
+    } else {
+        crate::runner::crash_context("survivor-collects-after-teardown");
+        match std::thread::Builder::new().stack_size(case.survivor_stack_kib as usize * 1024).spawn(survive).unwrap().join() {
+            Ok(r) => r,
+            Err(_) => violation("C20", "O-teardown", "O-teardown/survivor-panic", "the surviving thread panicked while collecting"),
+        }
+    };
+    let created = CREATED.load(SeqCst);
     let mut rep = Report::default();
-    rep.nontrivial = ACTIONS_AFTER_HANDLE.load(SeqCst) >= 1;
+    rep.nontrivial = ACTIONS_AFTER_HANDLE.load(SeqCst) >= 1 || (case.owned_many > 0 && case.init_order.first() != Some(&3));
     rep.count("objects_created", created);
     rep.count("destructor_actions", ACTIONS_RUN.load(SeqCst));
     rep.count("destructor_actions_after_handle_destroyed", ACTIONS_AFTER_HANDLE.load(SeqCst));
     rep.count("quiesce_rounds", rounds);
     if !case.init_order.contains(&3) && !uses_circ_in_body {
         rep.label("circ-first-used-inside-destructor");
+    }
+    if case.owned_many > 0 {
+        rep.label("large-collection-released-inside-destructor");
+        rep.count("released_inside_destructor_log2", (32 - case.owned_many.leading_zeros()) as u64);
     }
     if case.pending >= 64 {
         rep.label("exit-with->=64-pending");
